@@ -179,6 +179,12 @@ def run(ctx, params):
         if k == attach_at or (attach_mode == "again-later" and k == attach_at + 1):
             if attach_mode == "twice-in-one-call" and not attached:
                 sm.add_listener(l1, l1)
+            elif attach_at == 2:
+                import warnings as _w
+
+                with _w.catch_warnings():
+                    _w.simplefilter("ignore")
+                    sm.add_observer(l1)  # the deprecated alias must behave like add_listener
             else:
                 sm.add_listener(l1)
             if attached:
